@@ -15,8 +15,11 @@ PASS = ("ExprWithCleanups", "MaterializeTemporaryExpr", "CXXBindTemporaryExpr")
 
 
 class Run:
-    def __init__(self, unit, pos=0, ages=(), addrs=(), own_address="A"):
+    def __init__(self, unit, pos=0, ages=(), addrs=(), own_address="A", world=None):
         self.u = unit
+        # the world the tokens live in: {"tag": the event's value tag ('i', 'f', 'c') or None for "some tag", "same": whether
+        # the event's old and new value are equal}.  Without a world, different tokens compare unequal.
+        self.world = world or {"tag": None, "same": False}
         self.pos = pos
         self.ages = list(ages)
         self.addrs = list(addrs)
@@ -120,8 +123,21 @@ class Run:
             if isinstance(b, tuple) and b[0] == "arr":
                 return self.arrays.get((b[1], i), ("unset", b[1], i))
             if isinstance(b, tuple) and b[0] == "types" and isinstance(i, int):
+                if self.world["tag"] and b[2] + i in (1, 2):
+                    return ord(self.world["tag"])         # `s<t><t>`: both value tags are the event's tag
+                if b[2] + i == 0 and self.world["tag"]:
+                    return ord("s")
                 return ("typechar", b[1], b[2] + i)
             return NotImplemented
+        if k == "BinaryOperator" and n.get("opcode") in ("==", "!="):
+            a, b = ev.ev(ks[0]), ev.ev(ks[1])
+            if isinstance(a, tuple) and isinstance(b, tuple) and a[0] == "arg" and b[0] == "arg" and a[1] == b[1] and {a[2], b[2]} == {1, 2}:
+                eq = bool(self.world["same"])             # old value against new value of one event
+            elif isinstance(a, tuple) and isinstance(b, tuple) and a[0] == "typechar" and b[0] == "typechar" and a[1] == b[1] and {a[2], b[2]} == {1, 2}:
+                eq = True                                 # the two value tags of an event are the same tag
+            else:
+                eq = (a == b)
+            return int(eq == (n.get("opcode") == "=="))
         if k == "UnaryOperator" and n.get("opcode") == "&":
             o = A.strip_casts(ks[0])
             if o.get("kind") == "DeclRefExpr":
